@@ -51,6 +51,12 @@ def parseUint16 (s : List Nat) : QV :=
 
 def trimPrefix (p s : List Nat) : List Nat := if Input.isPrefix p s then s.drop p.length else s
 
+/-- `fmt.Sprintf(f, x)` for a format whose only verb is `%v`: the verb replaced by the rendering of `x`. -/
+def sprintfV : List Nat → List Nat → List Nat
+  | [], _ => []
+  | [c], _ => [c]
+  | a :: b :: rest, r => if a = 37 ∧ b = 118 then r ++ sprintfV rest r else a :: sprintfV (b :: rest) r
+
 def qcall (fn : String) (args : List QV) : Except String QV :=
   if fn = "strings.HasPrefix" then (match args with | [.str s, .str p] => .ok (.bool (Input.isPrefix p s)) | _ => .error "HasPrefix")
   else if fn = "strings.TrimPrefix" then (match args with | [.str s, .str p] => .ok (.str (trimPrefix p s)) | _ => .error "TrimPrefix")
@@ -59,6 +65,7 @@ def qcall (fn : String) (args : List QV) : Except String QV :=
     (match args with
      | [.str s] => .ok (.nat (InputBody.strLen s).toNat)
      | [.strs l] => .ok (.nat l.length)
+     | [.arr l] => .ok (.nat l.length)
      | _ => .error "len")
   else if fn = "Color" then (match args with | [.nat n] => .ok (.color n) | _ => .error "Color")
   else if fn = "strconv.ParseUint" then (match args with | [.str s, .nat 16, .nat 16] => .ok (parseUint16 s) | _ => .error "ParseUint")
@@ -68,6 +75,7 @@ def qcall (fn : String) (args : List QV) : Except String QV :=
   else if fn = "div" then (match args with | [.nat a, .nat b] => if b = 0 then .error "panic" else .ok (.nat (a / b)) | _ => .error "div")
   else if fn = "shl" then (match args with | [.nat a, .nat b] => .ok (.nat (a * 2 ^ b % U64)) | _ => .error "shl")
   else if fn = "shr" then (match args with | [.nat a, .nat b] => .ok (.nat (a / 2 ^ b)) | _ => .error "shr")
+  else if fn = "fmt.Sprintf" then (match args with | [.str f, .nat n] => .ok (.str (sprintfV f (decimal n))) | _ => .error "Sprintf")
   else if fn = "RGBColor" then (match args with | [.nat r, .nat g, .nat b] => .ok (.color (rgbColor r g b)) | _ => .error "RGBColor")
   else .error ("call " ++ fn)
 
